@@ -119,8 +119,14 @@ CHECKS["C12"] = dict(
     text="Lean 4 theorems: __setdefault__ marks exactly its own key and touches no other; a plain field starts at its declared default; an "
          "accepted assignment defines exactly its key; a rejected one changes no status (corollary of C06); reset = __setdefault__ on the "
          "owner: restores value and status, frames everything else. Correspondence: histories with reset/is_value_defined, plus direct "
-         "oracles (fresh configuration, callable defaults evaluated anew per configuration and per reset).",
-    note=CFG_NOTE + " 'defined exactly when last touch accepted' over whole histories is checked by the correspondence, proved per step.",
+         "oracles (fresh configuration, callable defaults evaluated anew per configuration and per reset, falsy constructor keywords, "
+         "falsy and empty environment values, mutable and challenge defaults). Continuation (Props/C12b.lean): a freshly built "
+         "configuration is all-default at every depth; over every history of assignments (accepted or rejected), loads and resets on "
+         "one configuration level the user-defined status of every key equals what a key-set machine computed from the schema alone "
+         "says (refinement by induction over histories), rejected assignments are invisible, reset after any history restores default "
+         "and status.",
+    note=CFG_NOTE + " The history refinement is proved for the leaf keys of one configuration level (deeper levels: all-default at build is "
+         "proved, histories are compared by the correspondence).",
     technique="Lean 4 proof (per-step state-machine lemmas) + model/implementation correspondence",
     design="6 C12")
 CHECKS["C15"] = dict(
@@ -172,9 +178,14 @@ CHECKS["C10"] = dict(
          "exactly as without a mask; without a mask every leaf is its field's to_basic; the same mask and virtual flag reach nested "
          "sub-configurations, config types and every configuration held in a list (element-wise lemma). Correspondence: histories "
          "ending in to_tree with several masks vs the model; marker stream (unique plaintexts in every sensitive position at every "
-         "depth and in list items) over tree and five document formats.",
+         "depth, in list items, and in configurations held below nested lists and dicts) over tree and five document formats. "
+         "Continuation (Props/C10b.lean, Config/Nested.lean): the walk that renders configurations held below nested containers "
+         "(the repair of F38) puts the caller's rendering at every configuration position at every depth and changes nothing else; "
+         "no string the inner renderings and the leaves do not mention survives, whatever the unmasked renderings contained; "
+         "compared with Config._render_nested on random nestings, agreeing and disagreeing shapes.",
     note=CFG_NOTE + " len(str(value)) is modelled for str/int/bool values. Document-level absence of markers is explored, the tree-level "
-         "statement is proved.",
+         "statement is proved. Nested containers of configurations have their own small model (the configuration model has no such slot); "
+         "the inner configurations' renderings are parameters there.",
     technique="Lean 4 proof (case analysis of the rendering loop; list induction for items) + model/implementation correspondence",
     design="6 C10")
 CHECKS["C17"] = dict(
